@@ -22,7 +22,7 @@ def run(prop, tier, seed, t0):
     R.run_sharded(res, exes[2], ['nsched=%d' % na[1]], na[0] * na[1], label='h_c11/det-asan', variant='asan', first=5_000_000)
     # TSan with real threads and seeded delays
     nt = (300, 10) if thorough else (20, 2)
-    env = {'TSAN_OPTIONS': 'halt_on_error=1:abort_on_error=1:report_thread_leaks=0:report_signal_unsafe=0'}
+    env = {'TSAN_OPTIONS': 'allocator_may_return_null=1:halt_on_error=1:abort_on_error=1:report_thread_leaks=0:report_signal_unsafe=0'}
     R.run_sharded(res, exes[1], ['nsched=%d' % nt[1]], nt[0] * nt[1], env=env, label='h_c11/tsan', variant='tsan', first=10_000_000, wall=900 if thorough else 400)
     # stratum "input ring laps" on its own (LDM + >= 3 workers + window >= nbWorkers x jobSize + an input of several ring laps + bursty caller): serialised
     # schedules (round trip + byte equality across schedules) and TSan with real threads (caller's refill of a ring slot vs the serial LDM pass reading it)
